@@ -332,12 +332,34 @@ fn main() {
                 json!({"save_ok": saved_ok, "saved": saved, "update_ok": upd_ok, "updated": updated, "found": found.map(|r| r.ok()), "info": info, "deadlock": dead})
             }};
         }
-        let mut inner = MemoryStore::new();
-        inner.insert(p0.credential_id.clone().into(), p0.clone());
+        // the shipped MemoryStore, reporting the capability the scenario names (a wrapper may branch on get_info)
+        struct CapStore { inner: MemoryStore, cap: String }
+        #[async_trait::async_trait]
+        impl CredentialStore for CapStore {
+            type PasskeyItem = Passkey;
+            async fn find_credentials(&self, ids: Option<&[webauthn::PublicKeyCredentialDescriptor]>, rp_id: &str) -> Result<Vec<Passkey>, StatusCode> {
+                self.inner.find_credentials(ids, rp_id).await
+            }
+            async fn save_credential(&mut self, cred: Passkey, user: make_credential::PublicKeyCredentialUserEntity, rp: make_credential::PublicKeyCredentialRpEntity,
+                                     options: get_assertion::Options) -> Result<(), StatusCode> {
+                self.inner.save_credential(cred, user, rp, options).await
+            }
+            async fn update_credential(&mut self, cred: Passkey) -> Result<(), StatusCode> { self.inner.update_credential(cred).await }
+            async fn get_info(&self) -> StoreInfo {
+                StoreInfo { discoverability: match self.cap.as_str() {
+                    "full" => DiscoverabilitySupport::Full,
+                    "non_discoverable" => DiscoverabilitySupport::OnlyNonDiscoverable,
+                    _ => DiscoverabilitySupport::ForcedDiscoverable,
+                } }
+            }
+        }
+        let mut mem = MemoryStore::new();
+        mem.insert(p0.credential_id.clone().into(), p0.clone());
+        let inner = CapStore { inner: mem, cap: sc["capability"].as_str().unwrap_or("forced").to_string() };
         let res = if sc["lock"] == "rwlock" {
-            run_ops!(Arc::new(tokio::sync::RwLock::new(inner)), |w: &Arc<tokio::sync::RwLock<MemoryStore>>, id: &passkey_types::Bytes| w.try_read().ok().and_then(|g| g.get(id.as_slice()).cloned()))
+            run_ops!(Arc::new(tokio::sync::RwLock::new(inner)), |w: &Arc<tokio::sync::RwLock<CapStore>>, id: &passkey_types::Bytes| w.try_read().ok().and_then(|g| g.inner.get(id.as_slice()).cloned()))
         } else {
-            run_ops!(Arc::new(tokio::sync::Mutex::new(inner)), |w: &Arc<tokio::sync::Mutex<MemoryStore>>, id: &passkey_types::Bytes| w.try_lock().ok().and_then(|g| g.get(id.as_slice()).cloned()))
+            run_ops!(Arc::new(tokio::sync::Mutex::new(inner)), |w: &Arc<tokio::sync::Mutex<CapStore>>, id: &passkey_types::Bytes| w.try_lock().ok().and_then(|g| g.inner.get(id.as_slice()).cloned()))
         };
         println!("E2REPLAY {}", json!({"result": res, "log": []}));
         return;
@@ -565,7 +587,7 @@ fn main() {
         let origin_s = sc["origin"].as_str().unwrap_or("https://future.1password.com").to_string();
         let rp_opt: Option<String> = sc["rp_id"].as_str().map(String::from);
         let effective_rp = rp_opt.clone().unwrap_or_else(|| url::Url::parse(&origin_s).ok().and_then(|u| u.domain().map(String::from)).unwrap_or_default());
-        let custom_hash: Option<Vec<u8>> = sc["custom_hash"].as_bool().unwrap_or(false).then(|| vec![0x5au8; 32]);
+        let custom_hash: Option<Vec<u8>> = sc["custom_hash"].as_bool().unwrap_or(false).then(|| vec![0x5au8; sc["custom_hash_len"].as_u64().unwrap_or(32) as usize]);
         let uv_req = match sc["user_verification"].as_str() {
             Some("discouraged") => webauthn::UserVerificationRequirement::Discouraged,
             Some("required") => webauthn::UserVerificationRequirement::Required,
